@@ -185,7 +185,8 @@ def tsStep (ts : List Int) : Option Int :=
   | [] => none
   | d :: ds => if ds.all (· == d) then some d else none
 
-/-- `TimeSeries.sample_rate`: `1e9 / step` when the step is unique, else `None` (a zero step is outside the model) -/
+/-- `TimeSeries.sample_rate`: `1e9 / step` when the step is unique, else `None` (a zero step, and steps beyond 2^53 ns
+    that are rounded when converted to a double, are outside the model) -/
 def tsSampleRate (fl : Rat → Rat) (ts : List Int) : Option Rat :=
   match tsStep ts with
   | some d => if d = 0 then none else some (fl (1000000000 / (d : Rat)))
@@ -479,7 +480,8 @@ def handle : List String → Option String
     some (showRat (flDouble x))
   | ["c05.rateq", dt] => do
     let dt ← int? dt
-    if dt ≤ 0 then none else some (showRat (sampleRateQ flDouble dt))
+    -- beyond 2^53 the period itself is rounded when it becomes a double: outside the model
+    if dt ≤ 0 ∨ dt > 9007199254740992 then none else some (showRat (sampleRateQ flDouble dt))
   | ["c05.dtq", rate] => do
     let r ← rat? rate
     if r ≤ 0 then none else some (toString (periodOfRateQ flDouble r))
@@ -553,7 +555,10 @@ def handle : List String → Option String
     let ts ← intList? ts
     match tsStep ts with
     | some 0 => none   -- division by a zero step: outside the model
-    | _ => some (showOpt showRat (tsSampleRate flDouble ts))
+    | some d =>
+      -- beyond 2^53 ns (104 days) the step itself is rounded when it becomes a double: outside the model
+      if d.natAbs > 9007199254740992 then none else some (showOpt showRat (tsSampleRate flDouble ts))
+    | none => some (showOpt showRat (tsSampleRate flDouble ts))
   | _ => none
 
 end Verif.C05
